@@ -528,6 +528,9 @@ def r5_status_conv(c, facts, rule='C04.R5'):
 
 def run(c, facts):
     import c13 as _c13e
+    import c15 as _c15e
+    R19 = c.rule('C04.R19', 'CHANGE-IN-ORDER: the edits of one didChange are applied one after the other, each converted against the text the previous one left: offsets computed ahead of time are stale after an edit that changes the length, and String::replace_range panics on them (shared with C15.R4)')
+    c.shared(R19, _c15e.r4_change, 'C15.R4', facts)
     R18 = c.rule('C04.R18', 'ERR-DISC: a front end\'s loader stops at the first module that does not compile - an importer compiled against a module whose compilation stopped half-way meets nodes without a core and panics (shared with C13.R4)')
     c.shared(R18, _c13e.r4_err_disc, 'C13.R4', facts)
     import lexrules
